@@ -116,6 +116,19 @@ PROPS = {
                       'rules/tables/c10_*.json.',
         'technique': 'cfg-site classification + cross-configuration item diff over MIR of several build worlds (rustc_private driver)',
     },
+    'C15': {
+        'module': 'c15',
+        'explanation': 'Definite-assignment analysis over MIR: every field of Vm classified per-run is assigned on every path of execute() '
+                       'before run() (through a must-write summary of load_fiber/load_frame); unclassified fields alarm exactly when '
+                       'run-reachable code writes them and execute does not reset them; the Err arm of a run reaches reset_stack; no '
+                       'debug-only assertion reads cross-run state; reset() re-initialises every persistent field a run can change.',
+        'assumptions': COMMON_ASSUME + ['classification of Vm fields in rules/tables/c15_vm_fields.json'],
+        'not_decided': ['behavioural equivalence with one program run piecewise', 'that reset() is observably identical to a new Vm'],
+        'level_text': 'Decides N1-N4 for all 17 fields of Vm and the execute/runtime_error/reset paths.',
+        'design_ref': 'DESIGN.md section 1, C15',
+        'level_note': 'Trusted: rustc front end + MIR, the extractor, the field classification table.',
+        'technique': 'definite-assignment (must-write) dataflow + who-may-write over resolved MIR (rustc_private driver)',
+    },
 }
 
 NOT_APPLICABLE = {
